@@ -5,7 +5,7 @@
    every receiver, including the minimum int. *)
 From Coq Require Import ZArith List Bool Arith Lia.
 Import ListNotations.
-From Mds Require Import Gen.RingIdx Ring.RingModel.
+From Mds Require Import Gen.RingIdx Ring.RingBase Ring.RingPlain.
 
 Definition int64 (z : Z) : Prop := (- 2 ^ 63 <= z < 2 ^ 63)%Z.
 
@@ -46,6 +46,18 @@ Proof.
   - destruct (Z.ltb_spec (n - - (1)) 0); [right; reflexivity|left; lia].
   - right. destruct (Z.ltb_spec (n - 1) 0); [lia|reflexivity].
 Qed.
+
+(* New: the counter n is only decremented while n > 1, so from an int64 argument every counter
+   value is an int64 in [1, n]; Of passes a length, which is never negative. *)
+Lemma new_counter_in_range : forall n, int64 n -> new_nonpos n = false -> new_more n = true ->
+  int64 (new_dec n) /\ new_nonpos (new_dec n) = false /\ (1 <= new_dec n < n)%Z.
+Proof.
+  unfold int64, new_nonpos, new_more, new_dec. intros n Hn Hp Hm.
+  apply Z.leb_gt in Hp. apply Z.gtb_lt in Hm. split; [lia|]. split; [apply Z.leb_gt; lia|lia].
+Qed.
+
+Lemma new_nonpos_nil : forall n, (n <= 0)%Z -> new_nonpos n = true.
+Proof. intros n H. unfold new_nonpos. apply Z.leb_le. exact H. Qed.
 
 Section Width.
 Variable T : Type.
